@@ -117,6 +117,9 @@ func main() {
 	case "", "codec":
 		d.witnesses()
 		d.generated(budget)
+	case "search": // violation search after a broken proof / disagreement: bounded, other seed
+		d.witnesses()
+		d.generated(3)
 	default:
 		fmt.Fprintln(os.Stderr, "unknown phase", o.Phase)
 		os.Exit(2)
